@@ -573,6 +573,8 @@ def _b_np_interp(interp, st, args, kw):
     opaque; which column is the axis and whether clamping applies is what the contracts check."""
     x = interp.resolve(st, args[0])
     xp, fp = args[1], args[2]
+    if isinstance(x, VArrN):
+        return VArrN([_b_np_interp(interp, st, [xi] + list(args[1:]), kw) for xi in x.items])
     if not (isinstance(xp, VArrTag) and isinstance(fp, VArrTag)):
         raise Unsupported("np.interp on non-table arguments")
     left = kw.get("left", args[3] if len(args) > 3 else None)
